@@ -1,5 +1,6 @@
-"""C17 CrossHair harness, part 2 (thorough tier): torchtree Optimizer over real torch optimisers and schedulers,
-and the tensor / parameter codec.  Same conventions as chk/c17_harness.py.
+"""C17 CrossHair harness, part 2 (thorough tier; OptimizerQ = the quick-tier slice of Optimizer[Adam]): torchtree
+Optimizer over real torch optimisers and schedulers, and the tensor / parameter codec.  Same conventions as
+chk/c17_harness.py.
 
 Importing this module runs every torch optimiser once: torch imports parts of itself lazily on the first
 optimiser step (creating a cache directory), which CrossHair would flag as a side effect during analysis.
@@ -98,6 +99,24 @@ def Optimizer_AdamW_twin(epoch: int, sched: int, warm: int, conv: bool, f: float
     post: __return__ != 'reached'
     """
     return M.reached('Optimizer[AdamW]', (epoch, sched, warm, conv, f, last_epoch, step_count))
+
+
+def OptimizerQ_rt(epoch: int, sched: int, warm: int, conv: bool, f: float, last_epoch: int,
+                                step_count: int) -> str:
+    """
+    pre: (sched == 0 or sched == 1 or sched == 4) and warm == 2 and not conv
+    post: __return__ == ''
+    """
+    return M.first_problem('Optimizer[Adam,quick]', (epoch, sched, warm, conv, f, last_epoch, step_count))
+
+
+def OptimizerQ_twin(epoch: int, sched: int, warm: int, conv: bool, f: float, last_epoch: int,
+                                step_count: int) -> str:
+    """
+    pre: (sched == 0 or sched == 1 or sched == 4) and warm == 2 and not conv
+    post: __return__ != 'reached'
+    """
+    return M.reached('Optimizer[Adam,quick]', (epoch, sched, warm, conv, f, last_epoch, step_count))
 
 
 # ------------------------------------------------------------------------------ tensor / parameter codec
